@@ -108,7 +108,10 @@ def run(cx):
     nrand = 3000 if quick else 40000
     work, is_tmpfs = fast_dir(cx)
     try:
-        _run(cx, drv, quick, maxsegs, fsmax, nrand, work)
+        if cx.replay:
+            _replay(cx, drv, work)
+        else:
+            _run(cx, drv, quick, maxsegs, fsmax, nrand, work)
     finally:
         if is_tmpfs:
             shutil.rmtree(work, ignore_errors=True)
@@ -138,7 +141,7 @@ def _run(cx, drv, quick, maxsegs, fsmax, nrand, work):
     # ---- leg G: replay every enumerated path on the real code, judge with PathsCheck
     enum_in = cx.path("enum.ndjson")
     vlib.write_ndjson(enum_in, cases)
-    nsh = 12 if quick else 48
+    nsh = 14 if quick else 48
     enum_out = cx.path("enum_obs")
     cx.run([drv, "replay", "-in", enum_in, "-out", enum_out, "-work", work, "-fsmax", str(fsmax),
             "-shards", str(nsh)], timeout=6000)
@@ -150,7 +153,7 @@ def _run(cx, drv, quick, maxsegs, fsmax, nrand, work):
     rand_in = cx.path("rand.ndjson")
     cx.run([drv, "gen", "-seed", str(cx.seed), "-n", str(nrand), "-out", rand_in])
     rcases = vlib.read_ndjson(rand_in)
-    vsh = 6 if quick else 16
+    vsh = 10 if quick else 16
     rand_out = cx.path("rand_obs")
     cx.run([drv, "replay", "-in", rand_in, "-out", rand_out, "-work", work, "-shards", str(vsh)], timeout=6000)
     rand_shards = ["%s.shard%d.ndjson" % (rand_out, k) for k in range(vsh)]
@@ -193,7 +196,7 @@ def _run(cx, drv, quick, maxsegs, fsmax, nrand, work):
             o = obs[n + 1][leg][k - 1]
             cx.violation("path %r: %s leg, real code disagrees with Paths.tla: expected %s observed %s (%d disagreeing observations for this path)" % (
                 render(c), leg, exp, json.dumps(o, sort_keys=True)[:300], len(items)),
-                {"leg": leg, "path": render(c), "case": {k2: v for k2, v in c.items() if k2 != "str"},
+                {"leg": leg, "path": render(c), "case": c,
                  "disagreements": [{"leg": l2, "index": k2, "expected": json.loads(e2), "observed": obs[n + 1][l2][k2 - 1]}
                                    for (l2, k2, e2) in items[:10]],
                  "all_mismatching_cases": len(by_case)})
@@ -233,6 +236,30 @@ def _run(cx, drv, quick, maxsegs, fsmax, nrand, work):
         "segments are abstracted to classes in leg V (\"\", \".\", \"..\", layout names, other names, other names beginning with ..)",
         "Paths.tla permits refusal of names whose cleaned form begins with the characters '..' (DESIGN 8.2)",
     ]
+
+
+def _replay(cx, drv, work):
+    """bin/check C13 --replay replays/C13-*.json: one recorded case through driver and PathsCheck."""
+    c = dict(json.load(open(cx.replay))["case"]["case"])
+    c["id"] = 1
+    tree = cx.path("tree.json")
+    cx.run([drv, "tree", "-work", work, "-out", tree])
+    inp, out = cx.path("replay_in.ndjson"), cx.path("replay_obs.ndjson")
+    vlib.write_ndjson(inp, [c])
+    cx.run([drv, "replay", "-in", inp, "-out", out, "-work", work, "-j", "1"])
+    obs = vlib.read_ndjson(out)[0]
+    items = judge(cx, [out], tree, "replay")
+    cx.cover.update({"evaluations": 1, "distinct_nontrivial": 1 if nontrivial(c) else 0, "traces_validated_against_impl": 1,
+                     "rule": "replay of one recorded case", "exhaustive": False})
+    if not items:
+        cx.log("replay: path %r conforms to Paths.tla on the current tree" % render(c))
+        return
+    _, leg, k, exp = items[0]
+    cx.violation("path %r: %s leg, real code disagrees with Paths.tla: expected %s observed %s" % (
+        render(c), leg, exp, json.dumps(obs[leg][k - 1], sort_keys=True)[:300]),
+        {"leg": leg, "path": render(c), "case": c,
+         "disagreements": [{"leg": l2, "index": k2, "expected": json.loads(e2), "observed": obs[l2][k2 - 1]}
+                           for (_, l2, k2, e2) in items[:10]]})
 
 
 def pick_representatives(keys, by_case, limit):
